@@ -219,6 +219,11 @@ func (br *xmpReader) readTagHeader(parent Tag) (tag Tag, err error) {
 		// Find Start of Tag
 		for ; i < len(buf); i++ {
 			if buf[i] == '<' {
+				if i+maxTagHeaderSize/2 > len(buf) && len(buf) >= s {
+					// The tag starts at the edge of the window: look further
+					// before reading its name.
+					break
+				}
 				if buf[i+1] == '/' {
 					tag.t = stopTag
 					i += 2
